@@ -157,13 +157,12 @@ impl IdlerBeam {
     //   return Err(SPDCError("Invalid solution for optimal idler theta".into()));
     // }
 
-    let sign = (theta_s / RAD).signum();
+    // `val` carries the sign of sin(theta_s), so asin(val) already puts the idler on the side opposite to the signal
     let theta = if (cos(theta_s).signum() < 0.) ^ crystal_setup.counter_propagation {
       PI - f64::asin(val)
     } else {
       f64::asin(val)
-    } * sign
-      * ucum::RAD;
+    } * ucum::RAD;
     let wavelength = ls * lp / (ls - lp);
     let phi = normalize_angle(signal.phi() + PI * RAD);
 
